@@ -91,7 +91,7 @@ impl Property for C14 {
         C14
     }
     fn n_cases(&self, tier: Tier) -> u64 {
-        tier.pick(20_000, 600_000)
+        tier.pick(80_000, 600_000)
     }
     fn chunk(&self, _tier: Tier) -> u64 {
         250
